@@ -1,8 +1,6 @@
 use std::{cmp, collections::HashMap, fs::File, io, path::Path};
 
 use noodles_core::Position;
-use noodles_fasta as fasta;
-use noodles_sam as sam;
 
 use crate::{
     container::{CompressionHeader, slice},
@@ -27,7 +25,7 @@ where
     P: AsRef<Path>,
 {
     let mut reader = File::open(src).map(Reader::new)?;
-    let header = reader.read_header()?;
+    reader.read_header()?;
 
     let mut index = Vec::new();
 
@@ -57,7 +55,6 @@ where
 
             push_index_records(
                 &mut index,
-                &header,
                 &compression_header,
                 &slice,
                 container_position,
@@ -74,7 +71,6 @@ where
 
 fn push_index_records(
     index: &mut crai::Index,
-    header: &sam::Header,
     compression_header: &CompressionHeader,
     slice: &Slice,
     container_position: u64,
@@ -84,7 +80,6 @@ fn push_index_records(
     if slice.header().reference_sequence_context().is_many() {
         push_index_records_for_multi_reference_slice(
             index,
-            header,
             compression_header,
             slice,
             container_position,
@@ -119,7 +114,6 @@ impl Default for SliceReferenceSequenceAlignmentRangeInclusive {
 
 fn push_index_records_for_multi_reference_slice(
     index: &mut crai::Index,
-    header: &sam::Header,
     compression_header: &CompressionHeader,
     slice: &Slice,
     container_position: u64,
@@ -133,13 +127,8 @@ fn push_index_records_for_multi_reference_slice(
 
     let (core_data_src, external_data_srcs) = slice.decode_blocks()?;
 
-    for record in slice.records(
-        fasta::Repository::default(), // TODO
-        header,
-        compression_header,
-        &core_data_src,
-        &external_data_srcs,
-    )? {
+    // The reference sequences are not needed (nor available) to place the records.
+    for record in slice.read_records(compression_header, &core_data_src, &external_data_srcs)? {
         let range = reference_sequence_ids
             .entry(record.reference_sequence_id)
             .or_default();
